@@ -1,4 +1,5 @@
 import AndaVerif.Proofs.ObjStoreConcReads
+import AndaVerif.Proofs.ObjStoreSpec
 /-
 C08 — Wrapper writes are atomic under crashes; garbage collection is safe.
 
@@ -112,6 +113,36 @@ theorem gc_after_crash_safe (fl : Wrapper) (es : List Event) (now : Nat) (c : Ca
     readCold (gcRun w now').1.be x = readCold w.be x :=
   gcRun_reads (crashState_inv (reachable_inv fl es) now c n) now' x
 
+/-- **gc_crash_safe.** `collect_garbage` itself is hit by the crash: it dies after any number `n` of
+its backend deletions (`FaultStore.crash_after_mutations(n)` during the sweep; the `n+1`-th delete does
+not land). The restart state is a state of the machine, every key reads exactly what it read before
+the collection, and a collection that gets at least as many deletions through as the full sweep
+performs is the full sweep. -/
+theorem gc_crash_safe (w : W) (hw : WInv w) (now n : Nat) (x : Path) :
+    readCold (gcCrashState w now n).be x = readCold w.be x ∧ WInv (gcCrashState w now n) ∧
+    ((gcRun w now).2 ≤ n → (gcCrashState w now n).be = (gcRun w now).1.be) :=
+  ⟨gcCrashState_reads hw now n x, gcCrashState_inv hw now n,
+   fun h => gcSweepCut_full w.inflight w.be (gcCandidates w.be now) n h⟩
+
+/-- ... in any history: crashed collections, crashed calls, aborted uploads, re-opens in any order
+(`reachable_inv` ranges over `Event.gcCrash` and `Event.abort` too), followed by a complete collection. -/
+theorem gc_crash_then_gc_safe (fl : Wrapper) (es : List Event) (now n now' : Nat) (x : Path) :
+    let w := run { W.init with flavor := fl } es
+    readCold (gcRun (gcCrashState w now n) now').1.be x = readCold w.be x := by
+  intro w
+  rw [gcRun_reads (gcCrashState_inv (reachable_inv fl es) now n) now' x]
+  exact gcCrashState_reads (reachable_inv fl es) now n x
+
+/-- **crash_atomic_whole.** For every call with ONE commit point — put in every mode, multipart, copy,
+delete, self-rename: everything except a rename between two different keys — the crash cut is atomic
+for the whole store at once: the cold view of ALL keys after the crash is the view before the call,
+or the view after the completed call. (The per-key form `crash_atomic` also covers renames.) -/
+theorem crash_atomic_whole (w : W) (hw : WInv w) (now : Nat) (c : Call) (hc : c.singleKey = true) (n : Nat) :
+    (∀ x, readCold (crashState w now c n).be x = readCold w.be x) ∨
+    (∀ x, readCold (crashState w now c n).be x = readCold (wStep w now c).1.be x) := by
+  rw [wStep_backend hw]
+  exact cutsWhole_stepsOf hw now c hc n
+
 /-- **gc_safe.** `collect_garbage` racing any number of in-process writers (put / multipart / copy /
 delete, each an interleavable sequence of atomic backend calls, registry accesses and critical
 sections — `Model/ObjStoreConc.lean`), under **every schedule**, for **every candidate list** the
@@ -173,5 +204,20 @@ example : (readCold (crashState exLegacy 6 (.put [0] .overwrite [9]) 2).be [0]).
 example : (gcRun (crashState exLegacy 6 (.put [0] .overwrite [9]) 2) 9).2 = 1 := by decide
 /-- a crash after the payload write leaves one unreferenced generation; the collection removes exactly it -/
 example : (gcRun (crashState exW 6 (.put [0] .overwrite [9]) 1) 9).2 = 1 := by decide
+
+/-- `crash_atomic_whole` cannot be extended to renames: cut between the copy commit and the delete of
+the source, both keys hold the object — neither the view before nor the view after. -/
+theorem crash_atomic_whole_counterexample_rename :
+    ¬ ((∀ x, readCold (crashState exW 6 (.rename [0] [1] false) 2).be x = readCold exW.be x) ∨
+       (∀ x, readCold (crashState exW 6 (.rename [0] [1] false) 2).be x =
+          readCold (wStep exW 6 (.rename [0] [1] false)).1.be x)) := by
+  intro h
+  rcases h with h | h
+  · have := h [1]; revert this; decide
+  · have := h [0]; revert this; decide
+
+/-- a collection that dies before its only deletion leaves the leftover; the next one removes it -/
+example : (gcRun (gcCrashState (crashState exW 6 (.put [0] .overwrite [9]) 1) 9 0) 12).2 = 1 := by decide
+example : (gcRun (gcCrashState (crashState exW 6 (.put [0] .overwrite [9]) 1) 9 1) 12).2 = 0 := by decide
 
 end AndaVerif.ObjStore
